@@ -18,8 +18,7 @@ MANIFEST = {
 THEOREMS = ['C15.quotes_table_ok', 'C15.bool_table_ok', 'C15.lists_table_ok', 'C15.header_table_ok',
             'C15.codec_roundtrip', 'C15.repr_roundtrip', 'C15.string_roundtrip', 'C15.string_file_roundtrip',
             'C15.bool_roundtrip', 'C15.int_parse_print', 'C15.int_roundtrip',
-            'C15.space_list_roundtrip_partial', 'C15.comma_list_roundtrip_partial',
-            'C15.space_list_counterexample', 'C15.comma_list_empty_counterexample', 'C15.comma_list_counterexample',
+            'C15.list_roundtrip', 'C15.comma_list_empty', 'C15.list_items_refused',
             'C15.reject_atomic', 'C15.reject_atomic_setValue', 'C15.getSpecific_sound', 'C15.override_local',
             'C15.follow_general', 'C15.fresh_child_inherits', 'C15.reset_network_follows', 'C15.file_always_loads',
             'C15.string_variants_roundtrip', 'C15.name_unescape_escape', 'C15.name_escape_roundtrip_partial',
@@ -251,15 +250,7 @@ def wrap_width(name):
     return 76 - (len(name) + 2)
 
 def finding_of_value(k, name, stored):
-    """the known-finding class an accepted value of class k falls in (None = none)"""
-    if k in ('comma', 'commaSet'):
-        if len(stored) == 0:
-            return 'C15-empty-comma-list'
-        if any((',' in e) or e.strip() != e for e in stored):
-            return 'C15-list-element-separator'
-    if k in ('space', 'spaceSet'):
-        if any(e == '' or any(c.isspace() for c in e) for e in stored):
-            return 'C15-list-element-separator'
+    """the known-finding class an accepted value of class k falls in (None: every former class has been fixed)"""
     return None
 
 def finding_of_names(names):
@@ -394,11 +385,11 @@ def stream_values(I, R, r, nbatches, per_batch):
             if k == 'normalized' and r.random() < 0.1:
                 name = 'v%d' % i + 'n' * r.choice([10, 40, 66, 70, 71, 72, 80])
             node = I.new(k)
-            root.register(name, node)
             try:
                 node.setValue(set(v) if k.endswith('Set') else v)
             except reg.InvalidRegistryValue:
                 continue
+            root.register(name, node)
             items.append([k, name, node, v])
         for it in items:
             node = it[2]
@@ -613,8 +604,8 @@ def stream_close(I, R, r, n):
             show = r.random() < 0.8
             try:
                 node = I.classes[k](d, h, showDefault=show)
-                root.register('v%d' % i, node)
                 node.setValue(v)
+                root.register('v%d' % i, node)
             except reg.InvalidRegistryValue:
                 continue
             stored = canon_value(node.value)
@@ -1449,7 +1440,17 @@ def stream_corpus(I, R):
     C = load_corpus()
     reg = I.registry
     def one_value(k, name, v, kind='corpus'):
-        stored, after, text = reload_value(I, k, name, set(v) if k.endswith('Set') else v)
+        try:
+            stored, after, text = reload_value(I, k, name, set(v) if k.endswith('Set') else v)
+        except reg.InvalidRegistryValue:
+            # an item the list syntax could not read back is refused at setValue (the former finding C15-list-element-separator)
+            node = I.new(k)
+            R.add_oracle(Case({'op': 'roundtrip', 'class': k, 'name': 'vt.' + name, 'value': v}, oracle_ok=(canon_value(node.value) == canon_value(I.new(k).value)),
+                              kind=kind, tags=('corpus', 'refused-' + k)))
+            if not k.endswith('Set'):
+                R.add(Case({'op': 'val_setv', 'class': k, 'value': v}, impl='error', kind=kind, tags=('corpus', 'setv-refused')),
+                      'val_setv\t%s\t%s' % (mcls(k), enc_val(v)))
+            return
         fid = finding_of_value(k, 'vt.' + name, stored)
         ok = (after == stored)
         R.add_oracle(Case({'op': 'roundtrip', 'class': k, 'name': 'vt.' + name, 'value': v, 'stored': stored}, oracle_ok=ok, finding=fid, kind=kind,
